@@ -356,7 +356,23 @@ func checkCase(c Case) (out evid.Outcome) {
 	}
 
 	wantStatus, wantBody, wantWritten := c.table()
-	if namedShape := c.Shape == "named" || c.Shape == "named_bytes" || c.Shape == "namedcode_string"; namedShape && c.Custom == "" && c.Own == "" && spy.Status() == 0 && len(spy.Body) == 0 && (markerRan || c.Pos == "action") {
+	// (what the response looks like when the returned value contributes nothing:
+	// the handler's own output alone, and the chain going on where it would)
+	ownStatus, ownBody, ownMarker := 0, "", true
+	switch c.Own {
+	case "flush":
+		ownStatus, ownMarker = 200, false
+	case "wh":
+		ownStatus, ownMarker = 202, false
+	case "w":
+		ownStatus, ownBody, ownMarker = 200, "own:", false
+	case "cancel":
+		ownMarker = false
+	}
+	if c.Method == "HEAD" {
+		ownBody = ""
+	}
+	if namedShape := c.Shape == "named" || c.Shape == "named_bytes" || c.Shape == "namedcode_string"; namedShape && c.Custom == "" && spy.Status() == ownStatus && string(spy.Body) == ownBody && (markerRan == ownMarker || c.Pos == "action") {
 		// a value of a *named* string / byte-slice / int type is not literally
 		// "a string, a byte slice, an int": treating it as its underlying kind
 		// (what the table above says) or as no renderable value at all (nothing
